@@ -1594,6 +1594,222 @@ Proof.
 Qed.
 
 (* ---------------------------------------------------------------------------------------------- *)
+(** * E8b. remove_key (tree with C20_10) *)
+
+Lemma nth_remove_nth : forall {A} (l : list A) i j d, nth j (remove_nth i l) d = nth (if j <? i then j else S j) l d.
+Proof.
+  induction l as [|a l IH]; intros i j d.
+  - assert (E : forall (x : nat), nth x (@nil A) d = d) by (intros [|x]; reflexivity).
+    destruct i; cbn [remove_nth]; rewrite !E; reflexivity.
+  - destruct i as [|i]; [reflexivity|]. destruct j as [|j]; [reflexivity|].
+    cbn [remove_nth nth]. rewrite IH. change (S j <? S i) with (j <? i). destruct (j <? i); reflexivity.
+Qed.
+
+Lemma length_remove_nth : forall {A} (l : list A) i, i < length l -> length (remove_nth i l) = length l - 1.
+Proof.
+  induction l as [|a l IH]; intros i H; simpl in *; [lia|].
+  destruct i as [|i]; simpl; [lia|]. rewrite IH by lia. lia.
+Qed.
+
+Lemma Forall_remove_nth : forall {A} (P : A -> Prop) (l : list A) i, Forall P l -> Forall P (remove_nth i l).
+Proof.
+  induction l as [|a l IH]; intros i H; [destruct i; exact H|].
+  inversion H; subst. destruct i as [|i]; simpl; [assumption|constructor; auto].
+Qed.
+
+(* where entry j of the new table comes from *)
+Definition drop_src (i : nat) (g : field) : field :=
+  match g with
+  | FAuxE j => FAuxE (if j <? i then j else S j)
+  | FAuxK j => FAuxK (if j <? i then j else S j)
+  | FAuxV j => FAuxV (if j <? i then j else S j)
+  | _ => g
+  end.
+
+Ltac ltb_cases :=
+  repeat match goal with
+  | |- context[?a <? ?b] => destruct (Nat.ltb_spec a b)
+  | |- context[?a =? ?b] => destruct (Nat.eqb_spec a b)
+  | H : context[?a <? ?b] |- _ => destruct (Nat.ltb_spec a b)
+  | H : context[?a =? ?b] |- _ => destruct (Nat.eqb_spec a b)
+  end.
+
+Lemma drop_src_not_entry : forall i g, is_entry i (drop_src i g) = false.
+Proof. intros i g. destruct g; simpl; try reflexivity; ltb_cases; lia. Qed.
+
+Lemma drop_src_dst : forall i h, is_entry i h = false -> drop_src i (drop_dst i h) = h.
+Proof.
+  intros i h H. destruct h; simpl in *; try reflexivity; apply Nat.eqb_neq in H; unfold drop_idx; f_equal; ltb_cases; lia.
+Qed.
+
+Lemma drop_dst_src : forall i g, drop_dst i (drop_src i g) = g.
+Proof. intros i g. destruct g; simpl; try reflexivity; unfold drop_idx; f_equal; ltb_cases; lia. Qed.
+
+Lemma drop_src_inj : forall i g1 g2, drop_src i g1 = drop_src i g2 -> g1 = g2.
+Proof. intros i g1 g2 H. rewrite <- (drop_dst_src i g1), <- (drop_dst_src i g2), H. reflexivity. Qed.
+
+Lemma drop_eqb : forall i h g, is_entry i h = false -> field_eqb (drop_dst i h) g = field_eqb h (drop_src i g).
+Proof.
+  intros i h g H. destruct (field_eqb (drop_dst i h) g) eqn:E.
+  - apply field_eqb_eq in E. subst g. rewrite (drop_src_dst i h H), field_eqb_refl. reflexivity.
+  - destruct (field_eqb h (drop_src i g)) eqn:E2; [|reflexivity].
+    apply field_eqb_eq in E2. subst h. rewrite drop_dst_src, field_eqb_refl in E. discriminate.
+Qed.
+
+Lemma get_aux_drop : forall o i g, get (aux_drop o i) g = get o (drop_src i g).
+Proof.
+  intros o i g. unfold get, aux_drop. cbn [slots].
+  induction (slots o) as [|[h s] l IH]; [reflexivity|]. cbn [filter fst snd].
+  destruct (is_entry i h) eqn:Eh; cbn [negb map get_slot fst snd].
+  - rewrite IH. destruct (field_eqb h (drop_src i g)) eqn:E; [|reflexivity].
+    apply field_eqb_eq in E. subst h. rewrite drop_src_not_entry in Eh. discriminate.
+  - rewrite (drop_eqb i h g Eh), IH. reflexivity.
+Qed.
+
+Lemma keys_nodup_aux_drop : forall o i, keys_nodup o -> keys_nodup (aux_drop o i).
+Proof.
+  intros o i H. unfold keys_nodup, aux_drop in *. cbn [slots].
+  induction (slots o) as [|[h s] l IH]; [constructor|]. cbn [filter fst snd map] in *.
+  inversion H as [|x l' Hnot ND]; subst.
+  destruct (is_entry i h) eqn:Eh; cbn [negb map fst]; [apply IH; exact ND|].
+  constructor; [|apply IH; exact ND].
+  intros Hin. apply Hnot. rewrite map_map in Hin. apply in_map_iff in Hin. destruct Hin as [[h' s'] [E Hin]].
+  apply filter_In in Hin. destruct Hin as [Hin Hne]. cbn [fst snd] in *. apply negb_true_iff in Hne.
+  assert (h' = h). { rewrite <- (drop_src_dst i h' Hne), <- (drop_src_dst i h Eh), E. reflexivity. }
+  subst h'. change h with (fst (h, s')). apply in_map; exact Hin.
+Qed.
+
+Lemma rel_reindex_owned : forall Fr o o' m (src : field -> field),
+  (forall g, get o' g = get o (src g)) -> (forall g1 g2, src g1 = src g2 -> g1 = g2) ->
+  (forall g, is_owned (get o g) = true -> exists g', src g' = g) ->
+  rel Fr o m -> rel Fr o' m.
+Proof.
+  intros Fr o o' m src G Hinj Hsur [Hm Hs Hi Hf Hc]. constructor; auto.
+  - intros f id b H. rewrite G in H. eauto.
+  - intros f g id b b' H1 H2. rewrite G in H1, H2. apply Hinj. eapply Hi; eauto.
+  - intros id b H. destruct (Hf _ _ H) as [H1 H2]. split; [exact H1|]. intros f b'. rewrite G. apply H2.
+  - intros id b H. destruct (Hc _ _ H) as [H1|[f H1]]; [left; exact H1|]. right.
+    destruct (Hsur f) as [g' E]; [rewrite H1; reflexivity|]. exists g'. rewrite G, E. exact H1.
+Qed.
+
+Lemma claim_set : forall o f s g, claim (set o f s) g = claim o g.
+Proof. reflexivity. Qed.
+
+Lemma drop_src_nonaux : forall i g, is_aux_field g = false -> drop_src i g = g.
+Proof. intros i g H. destruct g; try discriminate; reflexivity. Qed.
+
+Lemma remove_key_ok : forall kl Fr F o m k o' m' r,
+  obj_inv o -> keys_len kl (auxs o) -> rel Fr o m ->
+  step_remove_key cfg_fixed F m o k = (o', m', r) -> obj_inv o' /\ rel Fr o' m' /\ keys_len kl (auxs o').
+Proof.
+  intros kl Fr F o m k o' m' r I HL HR H. unfold step_remove_key in H.
+  destruct (find_key k (auxs o) 0) as [i|] eqn:Ef; [|inversion H; subst; auto].
+  apply find_key_spec in Ef. rewrite Nat.sub_0_r in Ef. destruct Ef as [_ [Hi _]]. rewrite (oi_auxlen I) in Hi.
+  pose proof (fun t => tmp_null o t I) as Ht.
+  set (n := naux o) in *.
+  cbn [fx_rmkey cfg_fixed] in H.
+  (* the whole call as one straight-line program *)
+  set (p := AAllocB (FTmp 0) (8 * (n - 1)) :: remove_key_fixed_tail i).
+  destruct (oi_auxi I _ Hi) as [HE [HK HV]].
+  destruct (get o (FAuxE i)) as [| |ide be|] eqn:EE; try discriminate. clear HE.
+  destruct (get o (FAuxK i)) as [| |idk bk|] eqn:EK; try discriminate. clear HK.
+  destruct (get o (FAuxV i)) as [| |idv bv|] eqn:EV; try discriminate. clear HV.
+  assert (Hn0 : n <> 0) by lia.
+  pose proof (oi_aux0 I Hn0) as HA. destruct (get o FAux) as [| |ida ba|] eqn:EA; try discriminate. clear HA.
+  pose proof (oi_claims I _ _ _ EE) as CE. pose proof (oi_claims I _ _ _ EK) as CK.
+  pose proof (oi_claims I _ _ _ EV) as CV. pose proof (oi_claims I _ _ _ EA) as CA.
+  assert (Hrun : run_ok p o).
+  { unfold p, remove_key_fixed_tail, remove_key_release, remove_key_forget. cbn [run_ok app]. rewrite Ht. split; [reflexivity|]. intros id'.
+    rewrite !claim_set. rewrite !get_set. feq. rewrite ?Nat.eqb_refl. cbv beta iota.
+    rewrite EE, EK, EV, EA. cbn [after_free freeable is_owned].
+    rewrite <- CE, <- CK, <- CV, <- CA, !Nat.eqb_refl. repeat split; auto. }
+  cbn [exec] in H. destruct (m_alloc F m (8 * (n - 1))) as [[id|] m1] eqn:EM.
+  2:{ inversion H; subst. split; [exact I|]. split; [eapply rel_alloc_none; eauto|exact HL]. }
+  destruct (exec F (remove_key_fixed_tail i) (m_lose m1 (get o (FTmp 0))) (set o (FTmp 0) (Owned id (8 * (n - 1))))) as [[o2 m2] r2] eqn:E2.
+  assert (Hall : exec F p m o = (o2, m2, r2)) by (unfold p; cbn [exec]; rewrite EM; exact E2).
+  destruct (exec_run_ok Fr F _ _ _ _ _ _ HR (oi_keys I) Hrun Hall) as [HR2 HK2].
+  (* the state in which the new table is installed *)
+  assert (G2 : forall g, get o2 g = if field_eqb FAux g then Owned id (8 * (n - 1))
+                                    else if is_entry i g || field_eqb (FTmp 0) g then Null else get o g).
+  { unfold remove_key_fixed_tail, remove_key_release, remove_key_forget in E2. cbn [exec app] in E2.
+    inversion E2 as [[Eo Em Er]]. clear E2 Hall Em Er. intros g. rewrite !get_set. feq. rewrite ?Nat.eqb_refl. cbv beta iota.
+    destruct g; cbn [field_eqb is_entry orb]; try reflexivity.
+    - destruct (Nat.eqb_spec i i0) as [->|Hne]; [rewrite Nat.eqb_refl; reflexivity|].
+      destruct (Nat.eqb_spec i0 i); [congruence|reflexivity].
+    - destruct (Nat.eqb_spec i i0) as [->|Hne]; [rewrite Nat.eqb_refl; reflexivity|].
+      destruct (Nat.eqb_spec i0 i); [congruence|reflexivity].
+    - destruct (Nat.eqb_spec i i0) as [->|Hne]; [rewrite Nat.eqb_refl; reflexivity|].
+      destruct (Nat.eqb_spec i0 i); [congruence|reflexivity].
+    - destruct k0; reflexivity. }
+  assert (Hc2 : core o2 = core o).
+  { unfold remove_key_fixed_tail, remove_key_release, remove_key_forget in E2. cbn [exec app] in E2. inversion E2. reflexivity. }
+  assert (Hr2 : r2 = None).
+  { pose proof (exec_nothrow F (remove_key_fixed_tail i) (m_lose m1 (get o (FTmp 0))) (set o (FTmp 0) (Owned id (8 * (n - 1)))) eq_refl) as En.
+    rewrite E2 in En. exact En. }
+  assert (Hlose : lose_entry m2 o2 i = m2).
+  { unfold lose_entry. rewrite !G2. cbn [field_eqb is_entry orb]. rewrite Nat.eqb_refl. reflexivity. }
+  rewrite Hlose in H. inversion H; subst o' m' r. clear H Hlose.
+  set (o5 := aux_drop o2 i) in *.
+  assert (G : forall g, get o5 g = get o2 (drop_src i g)) by (intros g; apply get_aux_drop).
+  unfold core in Hc2. inversion Hc2 as [[Q1 Q2 Q3 Q4 Q5 Q6]].
+  assert (N5 : naux o5 = n - 1) by (unfold o5, aux_drop; cbn [naux]; rewrite Q5; reflexivity).
+  assert (A5 : auxs o5 = remove_nth i (auxs o)) by (unfold o5, aux_drop; cbn [auxs]; rewrite Q6; reflexivity).
+  assert (D5 : ndim o5 = ndim o) by exact Q1.
+  (* a field of the new object that holds something: where it comes from in the old one *)
+  assert (Hfrom : forall g, get o5 g <> Null -> g = FAux \/ (g <> FAux /\ is_entry i (drop_src i g) = false /\ get o5 g = get o (drop_src i g))).
+  { intros g Hg. rewrite G, G2 in *. destruct (field_eqb FAux (drop_src i g)) eqn:B.
+    - left. apply field_eqb_eq in B. destruct g; try discriminate; reflexivity.
+    - right. split; [intros ->; discriminate|]. split; [apply drop_src_not_entry|].
+      rewrite drop_src_not_entry in *. cbn [orb] in *. destruct (field_eqb (FTmp 0) (drop_src i g)); [congruence|reflexivity]. }
+  assert (GA : get o5 FAux = Owned id (8 * (n - 1))) by (rewrite G, G2; reflexivity).
+  assert (Hidx : forall j, j < n - 1 -> (if j <? i then j else S j) < n /\ (if j <? i then j else S j) <> i) by (intros j Hj; ltb_cases; lia).
+  assert (Gent : forall j g0, j < n - 1 -> (g0 = FAuxE \/ g0 = FAuxK \/ g0 = FAuxV) -> get o5 (g0 j) = get o (g0 (if j <? i then j else S j))).
+  { intros j g0 Hj Hg0. destruct (Hidx j Hj) as [_ Hne]. rewrite G, G2.
+    destruct Hg0 as [-> | [-> | ->]]; cbn [drop_src field_eqb is_entry orb];
+      (destruct (Nat.eqb_spec (if j <? i then j else S j) i); [contradiction|reflexivity]). }
+  split; [|split].
+  - constructor.
+    + apply keys_nodup_aux_drop. exact HK2.
+    + intros g. rewrite G, G2. destruct (field_eqb FAux (drop_src i g)); [reflexivity|].
+      destruct (is_entry i (drop_src i g) || field_eqb (FTmp 0) (drop_src i g)); [reflexivity|apply (oi_ok I)].
+    + intros g id' b Hg. destruct (Hfrom g) as [->|[Hne [_ E]]]; [rewrite Hg; discriminate| |].
+      * rewrite GA in Hg. inversion Hg. unfold claim. rewrite N5. reflexivity.
+      * rewrite E in Hg. rewrite (oi_claims I _ _ _ Hg).
+        destruct g; try reflexivity; try (exfalso; apply Hne; reflexivity); cbn [drop_src claim]; unfold aux_at; rewrite ?A5, ?nth_remove_nth;
+          try reflexivity; unfold o5, aux_drop; cbn [ndim orders nknots naxes]; rewrite ?Q1, ?Q2, ?Q3, ?Q4; reflexivity.
+    + intros g Hg. rewrite D5, N5. destruct (Hfrom g Hg) as [->|[Hne [_ E]]].
+      * apply aux_flds_full. apply in_aux_flds. auto.
+      * rewrite E in Hg. pose proof (oi_dom I _ Hg) as Hd. fold n in Hd.
+        apply in_full_fields in Hd. apply in_full_fields.
+        destruct Hd as [Hd|[Hd|Hd]].
+        -- left. destruct g; try discriminate; reflexivity.
+        -- right; left. pose proof (tbl_fields_not_aux _ _ Hd) as Hna. destruct g; try discriminate; exact Hd.
+        -- right; right. apply in_aux_flds in Hd. apply in_aux_flds. destruct Hd as [Hd|[j [Hj Hd]]].
+           ++ destruct g; try discriminate. left; reflexivity.
+           ++ right. destruct g; cbn [drop_src] in Hd; try (destruct Hd as [Hd|[Hd|Hd]]; discriminate).
+              all: exists i0; split; [destruct Hd as [Hd|[Hd|Hd]]; inversion Hd; ltb_cases; lia|auto].
+    + intros _. rewrite GA. reflexivity.
+    + rewrite N5. intros j Hj. destruct (Hidx j Hj) as [Hlt _].
+      rewrite (Gent j FAuxE Hj), (Gent j FAuxK Hj), (Gent j FAuxV Hj) by auto. apply (oi_auxi I _ Hlt).
+    + rewrite A5, N5. rewrite length_remove_nth by (rewrite (oi_auxlen I); exact Hi). rewrite (oi_auxlen I). reflexivity.
+    + unfold o5, aux_drop. cbn [naxes ndim]. rewrite Q4, Q1. apply (oi_len I).
+    + rewrite D5. intros E0 g Hg. destruct (get o5 g) eqn:Eg; try reflexivity; exfalso.
+      all: destruct (Hfrom g) as [->|[_ [_ E]]]; [rewrite Eg; discriminate|discriminate|].
+      all: rewrite (drop_src_nonaux i g Hg) in E; rewrite (oi_tbl0 I E0 _ Hg) in E; congruence.
+    + rewrite D5. intros E0 g Hg. pose proof (tbl_fields_not_aux _ _ Hg) as Hna.
+      rewrite G, G2, (drop_src_nonaux i g Hna).
+      destruct (field_eqb FAux g) eqn:B; [apply field_eqb_eq in B; subst g; discriminate|].
+      assert (B2 : is_entry i g = false) by (destruct g; try discriminate; reflexivity). rewrite B2. cbn [orb].
+      destruct (field_eqb (FTmp 0) g) eqn:B3; [apply field_eqb_eq in B3; subst g; exfalso|apply (oi_tbl I E0 _ Hg)].
+      apply in_tbl_fields in Hg. destruct Hg as [Hg|[j [_ Hg]]]; [simpl in Hg; intuition discriminate|discriminate].
+  - apply (rel_reindex_owned Fr o2 o5 m2 (drop_src i)); [exact G|apply drop_src_inj| |exact HR2].
+    intros g Hg. exists (drop_dst i g). apply drop_src_dst. rewrite G2 in Hg.
+    destruct (field_eqb FAux g) eqn:B; [apply field_eqb_eq in B; subst g; reflexivity|].
+    destruct (is_entry i g); [discriminate|reflexivity].
+  - rewrite A5. apply Forall_remove_nth. exact HL.
+Qed.
+
+(* ---------------------------------------------------------------------------------------------- *)
 (** * E9. permuteDimensions *)
 
 Definition mk_slots (l : list (field * slot)) : obj :=
@@ -1790,6 +2006,14 @@ Proof.
     rewrite !orb_true_r. reflexivity.
 Qed.
 
+Lemma aux_deref_ok_of_inv : forall o, obj_inv o -> aux_deref_ok o = true.
+Proof.
+  intros o I. unfold aux_deref_ok. destruct (Nat.eqb_spec (naux o) 0) as [E|E]; [reflexivity|].
+  rewrite (oi_aux0 I E). cbn [orb andb].
+  pose proof (aux_ok_of_inv _ I) as H. unfold aux_ok in H. apply andb_true_iff in H. destruct H as [H _].
+  apply andb_true_iff in H. destruct H as [_ H]. exact H.
+Qed.
+
 Lemma safe_of_inv : forall o oother x, obj_inv o -> (forall o2, oother = Some o2 -> obj_inv o2) -> safe cfg_fixed o oother x = true.
 Proof.
   intros o oother x I I2. destruct x; cbn [safe fx_moveasg fx_conv fx_perm fx_eq fx_clear cfg_fixed destructor_safe andb]; try reflexivity.
@@ -1814,6 +2038,7 @@ Proof.
   - (* eval *) destruct (Nat.eqb_spec (ndim o) 0) as [E0|E0]; [reflexivity|].
     rewrite (built_of_inv _ I E0), (has_extents_of_inv _ I E0). reflexivity.
   - (* destructor *) apply clear_safe_of_inv; exact I.
+  - (* remove_key *) apply aux_deref_ok_of_inv; exact I.
 Qed.
 
 (* ---------------------------------------------------------------------------------------------- *)
@@ -1986,7 +2211,7 @@ Proof.
   intros kl F w x HI [Ht Hwf]. unfold step. rewrite (inv_nc HI).
   pose proof (inv_len HI) as HL.
   assert (Hskip : Inv kl (fst (w, Skipped)) /\ snd (w, Skipped) <> UB) by (split; [exact HI|discriminate]).
-  destruct x as [j|j f|j f|j s|j inv e|j dim nk|j p|j i|j i|i j|j fails|j|j]; cbn [target] in Ht; cbv beta iota zeta; cbn [target].
+  destruct x as [j|j f|j f|j s|j inv e|j dim nk|j p|j i|j i|i j|j fails|j|j|j key]; cbn [target] in Ht; cbv beta iota zeta; cbn [target].
   - (* ONew *)
     destruct (get_obj w j) as [o|] eqn:Ej; [exact Hskip|]. cbn [fst snd]. split; [|discriminate].
     apply Inv_set; auto.
@@ -2119,6 +2344,14 @@ Proof.
     split; [|discriminate]. apply Inv_set; auto.
     + cbn [oo]. apply destroy_ok; assumption.
     + intros ? E'; discriminate.
+  - (* ORemoveKey *)
+    destruct (get_obj w j) as [o|] eqn:Ej; [|exact Hskip].
+    destruct (inv_obj HI _ _ Ej) as [Io HLo].
+    rewrite (safe_of_inv o None (ORemoveKey j key) Io) by (intros; discriminate). cbn [negb].
+    assert (HR0 : rel (frame w j) o (wm w)) by (rewrite <- (cur_some _ _ _ Ej); apply (Inv_rel kl w j HI)).
+    destruct (step_remove_key cfg_fixed F (wm w) o key) as [[o' m'] r] eqn:E.
+    destruct (remove_key_ok kl _ _ _ _ _ _ _ _ Io HLo HR0 E) as [I' [HR' HK']].
+    destruct r; cbn [finish fst snd]; (split; [|discriminate]); apply Inv_set; auto; intros o0 E'; inversion E'; subst; auto.
 Qed.
 
 (* ---------------------------------------------------------------------------------------------- *)
@@ -2228,6 +2461,13 @@ Proof.
 Qed.
 Lemma h_example_wf_destroy : Forall (wf_op kl5) (h_example ++ [ODestroy 0; ODestroy 1]).
 Proof. apply Forall_app. split; [exact h_example_wf|]. repeat constructor; simpl; lia. Qed.
+
+(* a history with key removals: middle, miss, first, (moved), last; then a key written into the emptied table *)
+Definition h_example_rk : list op :=
+  [ONew 0; ORead 0 fileB; OWriteKey 0 false key2; ORemoveKey 0 3; ORemoveKey 0 7; ORemoveKey 0 1; OMoveCtor 1 0; ORemoveKey 1 2;
+   OWriteKey 1 false key2].
+Lemma h_example_rk_wf : Forall (wf_op kl5) h_example_rk.
+Proof. unfold h_example_rk. repeat constructor; simpl; try lia; try discriminate; auto. Qed.
 
 Lemma all_gone_4 : forall w, objs w = [None; None; None; None] -> all_gone w.
 Proof. intros w H j. unfold get_obj. rewrite H. destruct j as [|[|[|[|[|j]]]]]; reflexivity. Qed.
